@@ -256,7 +256,7 @@ def _timeline(rec, rng, sim, R, V, srv, pi, pt, n, monitor, rto, desc):
 
 def plan(tier, seed):
     n = 16
-    per = 1500 if tier == 'thorough' else 90
+    per = 4000 if tier == 'thorough' else 90
     return [{'seed': seed, 'shard': s, 'n': per} for s in range(n)]
 
 
